@@ -342,7 +342,9 @@ class LiteralMethod(DeserializationMethod):
             if self.coercer is not None:
                 for cls in self.types:
                     try:
-                        return self.value_map[cls, self.coercer(cls, data)]
+                        coerced = self.coercer(cls, data)
+                        # coercer could return an instance of a subclass, e.g. bool/int
+                        return self.value_map[coerced.__class__, coerced]
                     except KeyError:
                         pass
             raise ValidationError(format_error(self.error, data))
